@@ -11,6 +11,8 @@ Side-car format (line oriented):
     @after <text>               statements inserted after the statement that contains <text>
                                 (whitespace-insensitive, must be unique in the fn)
     @before <text>              same, before that statement
+    @ins_before <text>          inserted right before the unique token sequence <text> (no statement logic)
+    @ins_after <text>           inserted right after it
     @body_start                 statements inserted right after the body `{`
     @end                        statements inserted before the tail expression (value fns) or
                                 before the closing `}` (unit fns)
@@ -45,7 +47,7 @@ def parse_sidecar(text):
             blocks.append(cur)
             sec = None
             continue
-        if line.startswith("@") and not line.startswith("@@") and cur is not None and re.match(r"@(ret|spec|loop|before_loop|after|before|body_start|end|attr|loop_end|loop_body|loop_iter|field_init)\b", line):
+        if line.startswith("@") and not line.startswith("@@") and cur is not None and re.match(r"@(ret|spec|loop|before_loop|after|before|body_start|end|attr|loop_end|loop_body|loop_iter|field_init|ins_before|ins_after)\b", line):
             m = re.match(r"@(\w+)\s*(.*)$", line)
             sec = {"kind": m.group(1), "arg": m.group(2).strip(), "lines": []}
             cur["secs"].append(sec)
@@ -239,6 +241,13 @@ def merge_into(ix, ed, sidecar_text, report=None):
                         ed.insert(st[s1].e, "\n" + body)
                     else:
                         ed.insert(st[s0].s, body)
+                elif kind in ("ins_before", "ins_after"):
+                    # raw insertion right before / after the unique token sequence <arg>
+                    a, z = _find_text(ix, f, arg)
+                    if kind == "ins_before":
+                        ed.insert(st[a].s, body)
+                    else:
+                        ed.insert(st[z].e, "\n" + body)
                 elif kind == "field_init":
                     # struct literal `<arg> {` inside the fn: add ghost field initialisers
                     hits = [i for i in range(f.i_body + 1, f.i_end - 1)
